@@ -104,6 +104,7 @@ SITES = {
     'opt_map_ctor': r'\.\s*map\s*\(\s*[A-Z]\w*(?:::\w+)+\s*\)',
     'and_then': r'\.\s*and_then\s*\(',
     'chars_all': r'\.\s*chars\s*\(\s*\)\s*\.\s*all\s*\(',
+    'entry_or_insert_with': r'\.\s*entry\s*\(',
 }
 
 
@@ -378,6 +379,25 @@ def apply(text, args):
     rstart = _receiver_start(text, m, s)
     recv = text[rstart:s]
     recv_clean = re.sub('\x01T?\\d+\x01', '', recv).strip()
+    if kind == 'entry_or_insert_with':
+        # M.entry(K).or_insert_with(|| D)  ==>  M.entry_or_insert(K, D): one shim with the std-documented contract of the pair
+        # (a reference to the existing value, or to D inserted under K). D is evaluated eagerly: it must be an expression
+        # without effects (checked syntactically: no `&mut`, assignment, macro, loop, `return` or `?`; every call in it is to a
+        # function Verus checks, whose shims are pure).
+        close = rs.match_close(text, m, e - 1)
+        key = text[e:close]
+        mm2 = re.compile(WS + r'\.' + WS + r'or_insert_with' + WS + r'\(').match(text, close + 1)
+        if not mm2:
+            from vunit import Undecided
+            raise Undecided('T4 entry_or_insert_with #%d: `.entry(..)` is not followed by `.or_insert_with(`' % k)
+        pat, body, close2 = _closure(text, m, mm2.end() - 1)
+        if pat:
+            raise T4Error('or_insert_with closure takes no parameter')
+        clean_body = re.sub('\x01T?\\d+\x01', '', body)
+        if re.search(r'&\s*mut\b|[^=!<>]=[^=]|\w+!\s*[\(\[{]|\bloop\b|\bwhile\b|\breturn\b|\?', clean_body):
+            raise T4Error('or_insert_with default is not an effect-free expression: %s' % rs.norm_ws(clean_body)[:80])
+        new = '%s.entry_or_insert(%s, %s)' % (recv.rstrip(), key.strip(), body.strip())
+        return text[:rstart] + new + text[close2 + 1:], 'entry_or_insert_with #%d: `%s`.entry(%s).or_insert_with(|| %s)' % (k, recv_clean, rs.norm_ws(key), rs.norm_ws(re.sub('\x01T?\\d+\x01', '', body)))
     if kind == 'map_err_opaque':
         # X.map_err(F): the error value is irrelevant to every contract -> opaque error of the unit
         close = rs.match_close(text, m, e - 1)
